@@ -185,7 +185,7 @@ def stepDrv (st : St) (line impl : String) : St × String × String :=
         | none => if impl.startsWith "err:" then "ok" else "viol:unparseable-output"
         | some seqs =>
           if readBoundsOK seqs floor committed then "ok"
-          else if rev = 0 ∧ from_ = 0 ∧ committed = 0 ∧ impl = mStr ∧ seqs.all (fun s => floor < s) then
+          else if rev = 0 ∧ from_ = 0 ∧ committed = 0 ∧ seqs.all (fun s => floor < s) then
             "viol:forward-read-from-zero-ignores-zero-committed"
           else if seqs.any (fun s => s > committed) then "viol:read-above-committed"
           else "viol:read-at-or-below-retention-floor"
